@@ -1596,6 +1596,11 @@ impl CanonicalizeContext {
 			if following_siblings.is_empty() {
 				return None;
 			}
+			let parent = get_parent(leaf);
+			let parent_name = name(&parent);
+			if ELEMENTS_WITH_FIXED_NUMBER_OF_CHILDREN.contains(parent_name) || parent_name == "mmultiscripts" {
+				return None;		// the siblings are positional arguments (numerator/denominator, base/script), not a row
+			}
 
 			let following_sibling = as_element(following_siblings[0]);
 			let following_sibling_name = name(&following_sibling);
